@@ -132,9 +132,11 @@ func init() {
 		Opts: func(e *Engine, key string) VerifyOpts {
 			return VerifyOpts{OnlyKinds: []string{"pre", "post", "frame", "inv-init", "inv-pres", "cover", "call"}}
 		},
+		Extra: func(e *Engine, tier string) []*FuncResult { return []*FuncResult{e.mergeFlowResult()} },
 		Assumptions: []string{
-			"scope: rule contracts of the builder rules omit / rename, the option actions rename / omit / duplicate / add_comments / array_to_append / map_to_index / unfold_boolean and the by-name selectors: each states what comes back for a selected builder/option (including what is kept: arguments, assignments, target paths, defaults) and that non-applicable inputs come back unchanged",
-			"NOT covered by this check: the rewriter glue (Rewriter.ApplyTo / applyBuilderRules / applyOptionRules) that applies rules behind selectors, sequences of rules, path well-typedness after MakePath, and the remaining rules (merge_into, compose, duplicate builder, properties, initialize, promote_to_constructor, add_option, add_factory, struct_fields_as_*, disjunction_as_options, rename_arguments, add_assignment)",
+			"merge_into / compose: ast.Path.Append is under contract (a fresh array holding receiver ++ suffix, nothing pre-existing written) and a def-use obligation generated from the SSA of mergeBuilderInto requires every path of a copied assignment to be built by underPath.Append(old path) and nothing else; the loops of mergeBuilderInto (which options are copied, renamed, excluded) are not under contract",
+			"scope: rule contracts of the builder rules omit / rename, the option actions rename / rename_arguments / omit / duplicate / add_comments / array_to_append / map_to_index / unfold_boolean and the by-name selectors: each states what comes back for a selected builder/option (including what is kept: arguments, assignments, target paths, defaults) and that non-applicable inputs come back unchanged",
+			"NOT covered by this check: the rewriter glue (Rewriter.ApplyTo / applyBuilderRules / applyOptionRules) that applies rules behind selectors, sequences of rules, path well-typedness after MakePath, and the remaining rules (duplicate builder, properties, initialize, promote_to_constructor, add_option, add_factory, struct_fields_as_*, disjunction_as_options, add_assignment; merge_into / compose only as far as the re-rooting of paths goes)",
 			"selectors are values of a `pure` function type: their answer is a function of the selector value and the argument values",
 			"appends may write into spare capacity of an existing backing array (`modifies spare-capacity`): assumed unobservable; panic-freedom of the same closures is C04's claim",
 		},
